@@ -19,6 +19,11 @@ SQ = pdfwrite.SQUARE
 def tables(rng):
     """(lines of the table, [(description, fmv text)], total text)"""
     t = []
+    t.append(([SQ + " CI BALANCED ASSET ALLOCATION ETF (CBAL) 60.0 60,000.0",
+               SQ + " ANOTHER ASSET", "ALLOCATION FUND SERIES F (AAF)", "40.0 40,000.0",
+               "100.0 100,000.0"],
+              [("CI BALANCED ASSET ALLOCATION ETF (CBAL)", "60000.00"),
+               ("ANOTHER ASSET ALLOCATION FUND SERIES F (AAF)", "40000.00")], "100000.00"))
     t.append(([SQ + " BLABLA ETF (BLABLA) 80.0 80,000.0",
                SQ + " SOME GIC 01/01/2024", "4.00% 1Y DUE 01/01/2024  INT  4.000% (XXXXXX)", "20.0 20,000.0",
                "100.0 100,000.0"],
